@@ -314,6 +314,22 @@ class MapBox:
         self.m = m
 
 
+class SymBytes(ModelValue):
+    """bytes obtained from a symbolic string by .encode(codec); only .decode() is modelled"""
+
+    def __init__(self, s, codec):
+        self.s, self.codec = s, codec
+
+
+class IdSet(ModelValue):
+    """A python set whose members hold symbolic values (e.g. component ids with symbolic names): list-backed; the
+    contract guarantees that the members are pairwise distinct.  Iteration order = insertion order (python's is
+    arbitrary: results that depend on it are a C15 matter and are checked there)."""
+
+    def __init__(self, items=()):
+        self.items = list(items)
+
+
 class FlexDict(dict):
     """A dict created by the interpreted code from an empty literal; becomes symbolic (sym = MapBox) the
     first time a symbolic map is merged into it."""
